@@ -4,16 +4,22 @@ import itertools, math
 from . import common as C
 
 INTS = ["0", "1", "-1", "2", "-2", "3", "7", "-7", "10", "100", "32767", "-32768", "32768", "46340", "46341",
-        "-46341", "65536", "641", "6700417", "16777216", "16777217", "2147483647", "-2147483647", "-2147483648"]
+        "-46341", "65536", "641", "6700417", "16777216", "16777217", "-16777217", "2147483646", "2147483647", "-2147483647", "-2147483648"]
 RATS = ["1/2", "-1/2", "1/3", "2/3", "-2/3", "3/2", "-7/3", "22/7", "1/32767", "32767/32768", "1/65536",
         "65537/65536", "2147483647/2", "1/2147483647", "-2147483648/3", "1/641", "1/6700417", "4/2", "6/4", "0/5",
-        "(/ 1 -2)", "(+ 1/2 1/2)", "(/ 6 4)", "(- 1/2 1/2)", "(* 2/3 3/2)", "(/ -3 -6)"]
+        "16666667/50000000", "(/ 1 -2)", "(+ 1/2 1/2)", "(/ 6 4)", "(- 1/2 1/2)", "(* 2/3 3/2)", "(/ -3 -6)"]
 REALS = ["0.0", "-0.0", "1.0", "-1.0", "0.5", "1.5", "-1.5", "2.5", "-2.5", "0.1", "1e10", "1e-10", "3.4e38", "1e39",
-         "-1e39", "(/ 0. 0.)", "16777216.0", "16777217.0", "2147483648.0", "-2147483648.0", "2147483520.0",
+         "-1e39", "(/ 0. 0.)", "16777216.0", "-16777216.0", "0.25", "0.33333334", "16777217.0", "2147483648.0", "-2147483648.0", "2147483520.0",
          "-2147483904.0", "1e-45", "3.5", "-3.5", "1e2"]
 OPERANDS = INTS + RATS + REALS
 SMALL = ["0", "1", "-1", "2", "-7", "32768", "2147483647", "-2147483648", "1/2", "-1/2", "2/3", "(/ 1 -2)", "(+ 1/2 1/2)",
          "22/7", "0.0", "-0.0", "1.5", "-2.5", "(/ 0. 0.)", "1e39"]
+
+# operands whose order changes (or collapses) under rounding to binary32: all triples of these run in every tier, so that
+# an exact operand carried along an n-ary chain/fold in converted form is seen
+ROUND = ["16777216.0", "16777217", "16777216", "-16777217", "-16777216.0", "2147483646", "2147483647", "2147483648.0",
+         "1/3", "16666667/50000000", "0.33333334", "0.25", "1.0", "1"]
+assert all(x in OPERANDS for x in ROUND)
 
 I32_MIN, I32_MAX = -2**31, 2**31 - 1
 
@@ -89,6 +95,9 @@ def spec_arith(op, xs):
     except Inexact:
         return ("inexact",)
     return None
+
+
+CMP_OPS = ("=", "<", ">", "<=", ">=")
 
 
 def spec_cmp(op, xs):
